@@ -266,6 +266,16 @@ class Recorder:
                 self.ev('api_ret', op='upd', sid=sp['sid'], ok=True)
             except Exception as ex:  # noqa: BLE001
                 self.ev('api_ret', op='upd', sid=sp['sid'], ok=False, exc=type(ex).__name__)
+        elif op == 'mut':
+            # the application assigns new addresses to the description it registered, without telling the library (no update)
+            sp = st['svc']
+            info = self.infos.get(sp['sid'])
+            if info is None:
+                return
+            a4, a6 = ADDR_SETS[sp['addrs']]
+            self.ev('api', op='mut', svc=expected_records(self.it, sp))
+            info.addresses = [socket.inet_aton(a) for a in a4] + [socket.inet_pton(socket.AF_INET6, a) for a in a6]
+            self.specs[sp['sid']] = sp
         elif op == 'unreg':
             info = self.infos.pop(st['sid'], None)
             if info is None:
@@ -755,6 +765,13 @@ def gen_resp(rng: random.Random, sid: str, focus: str, thorough: bool = False) -
                 # an address (or type enumeration) answer parked by the one-second rule when the service goes: asked, answered at
                 # once, asked again within the second, then unregistered before the parked answer is due
                 qname, qtype = rng.choice([(sp['host'], wire.T_A), (sp['host'], wire.T_AAAA), (ENUM, wire.T_PTR), (sp['type'], wire.T_PTR)])
+                if (focus == 'c08' and rng.random() < 0.35 and sp['addrs'] in ('v4', 'other4', 'two4') and layout != 'dual'
+                        and not any(x['host'] == sp['host'] for x in live if x['sid'] != sp['sid'])):
+                    # ... after the application has given the registered description another address, in place
+                    sp = dict(sp, addrs={'v4': 'other4', 'other4': 'v4', 'two4': 'other4'}[sp['addrs']])
+                    live[[x['sid'] for x in live].index(sp['sid'])] = sp
+                    steps.append({'op': 'mut', 'svc': sp})
+                    qname, qtype = sp['host'], wire.T_A
                 for dt in (0, rng.choice([150, 400, 700])):
                     t += dt
                     steps += [{'op': 'at', 't': t}, {'op': 'query', 'qs': [{'name': qname, 'type': qtype, 'sp': 0, 'qu': False}],
